@@ -139,6 +139,12 @@ class PathData(Ext):
             return PathTail(self.cmds)
         raise Undecided("path data subscript other than d[0] / d[1:]")
 
+    def sym_getattr(self, it, attr):
+        from sa.sym import PyCallable
+        if attr == "strip":
+            return PyCallable(lambda i, a, k: self)
+        raise Undecided(f"str.{attr} on path data")
+
     def sym_eq(self, it, other):
         if isinstance(other, str):
             if other == "":
